@@ -56,14 +56,146 @@ Proof.
     + split; [intros _; lia | reflexivity].
 Qed.
 
+(* Go's fixed-width arithmetic changes nothing on the ranges of the Go types *)
+Lemma u8_ok_range x : u8_ok x = true <-> 0 <= x < 256.
+Proof. unfold u8_ok. rewrite andb_true_iff, Z.leb_le, Z.ltb_lt. tauto. Qed.
+Lemma u32_ok_range x : u32_ok x = true <-> 0 <= x < 4294967296.
+Proof. unfold u32_ok. rewrite andb_true_iff, Z.leb_le, Z.ltb_lt. tauto. Qed.
+
+Lemma restriction_go_eq logindays badpost limlogins limbad :
+  u32_ok logindays = true -> u8_ok badpost = true -> u8_ok limlogins = true -> u8_ok limbad = true ->
+  restriction_reason_go logindays badpost limlogins limbad = restriction_reason logindays badpost limlogins limbad.
+Proof.
+  rewrite u32_ok_range, !u8_ok_range. intros Hd Hb Hl Hk.
+  unfold restriction_reason_go, restriction_reason, wrapu32, wrapu8.
+  rewrite (Z.mod_small logindays 4294967296) by lia.
+  rewrite (Z.mod_small limlogins 256) by lia.
+  rewrite (Z.mod_small limlogins 4294967296) by lia.
+  rewrite (Z.mod_small badpost 256) by lia.
+  rewrite (Z.mod_small limbad 256) by lia.
+  rewrite (Z.mod_small (255 - limbad) 256) by lia.
+  assert (Hq : 0 <= logindays / 10 < 4294967296).
+  { split; [apply Z.div_pos; lia | apply Z.div_lt_upper_bound; lia]. }
+  rewrite (Z.mod_small (logindays / 10) 4294967296) by lia.
+  reflexivity.
+Qed.
+
+(* the rule in days, without division: the board's limit is kept in units of ten login-days *)
+Lemma restriction_rule_days logindays badpost limlogins limbad :
+  u32_ok logindays = true -> u8_ok badpost = true -> u8_ok limlogins = true -> u8_ok limbad = true ->
+  (restriction_reason_go logindays badpost limlogins limbad = ptttype.RESTRICT_REASON_NONE <->
+   10 * limlogins <= logindays /\ badpost + limbad <= 255).
+Proof.
+  intros Hd Hb Hl Hk. rewrite restriction_go_eq by assumption. rewrite restriction_none_iff.
+  apply u32_ok_range in Hd.
+  split; intros [H1 H2]; (split; [| lia]).
+  - pose proof (Z.mul_div_le logindays 10). lia.
+  - apply Z.div_le_lower_bound; lia.
+Qed.
+
+(* which of the two limits refuses *)
+Lemma restriction_reason_cases logindays badpost limlogins limbad :
+  u32_ok logindays = true -> u8_ok badpost = true -> u8_ok limlogins = true -> u8_ok limbad = true ->
+  (logindays < 10 * limlogins -> restriction_reason_go logindays badpost limlogins limbad = ptttype.RESTRICT_REASON_NUMLOGIN_DAYS) /\
+  (10 * limlogins <= logindays -> 255 < badpost + limbad -> restriction_reason_go logindays badpost limlogins limbad = ptttype.RESTRICT_REASON_BADPOST).
+Proof.
+  intros Hd Hb Hl Hk. rewrite restriction_go_eq by assumption. apply u32_ok_range in Hd. unfold restriction_reason.
+  split.
+  - intros H. destruct (Z.ltb_spec (logindays / 10) limlogins) as [_ | H1]; [reflexivity |].
+    pose proof (Z.mul_div_le logindays 10). pose proof (Z.mod_pos_bound logindays 10). pose proof (Z.div_mod logindays 10). lia.
+  - intros H H2. destruct (Z.ltb_spec (logindays / 10) limlogins) as [H1 | _].
+    + assert (limlogins <= logindays / 10) by (apply Z.div_le_lower_bound; lia). lia.
+    + destruct (Z.gtb_spec badpost (255 - limbad)) as [_ | H3]; [reflexivity | lia].
+Qed.
+
+(* non-vacuity, at the limits where a product kept in a uint8 would wrap: 30 stands for 300 login-days *)
+Example big_limit_refuses :
+  restriction_reason_go 50 0 30 0 = ptttype.RESTRICT_REASON_NUMLOGIN_DAYS /\
+  restriction_reason_go 299 0 30 0 = ptttype.RESTRICT_REASON_NUMLOGIN_DAYS /\
+  restriction_reason_go 300 0 30 0 = ptttype.RESTRICT_REASON_NONE /\
+  restriction_reason_go 2549 0 255 0 = ptttype.RESTRICT_REASON_NUMLOGIN_DAYS /\
+  restriction_reason_go 2550 0 255 0 = ptttype.RESTRICT_REASON_NONE /\
+  restriction_reason_go 2550 1 255 255 = ptttype.RESTRICT_REASON_BADPOST.
+Proof. vm_compute. repeat split; reflexivity. Qed.
+
 Lemma banned_iff tag expire now : banned tag expire now = true <-> tag = true /\ now < expire.
 Proof. unfold banned. rewrite andb_true_iff, Z.gtb_lt. tauto. Qed.
 
 Lemma is_owner_iff m l c : is_owner m l c = true <-> m = true /\ l = true /\ c = true.
 Proof. destruct m, l, c; cbn; split; intros; try tauto; try discriminate; destruct H as (? & ? & ?); discriminate. Qed.
 
+(* ---- ownership on id strings: Cstrcmp = 0 exactly when the two C strings (bytes before the first NUL) are equal *)
+Lemma cstrcmp_zero_iff : forall a b, cstrcmp a b = 0 <-> cprefix a = cprefix b.
+Proof.
+  induction a as [| x a IH]; intros b.
+  - cbn [cstrcmp cprefix]. destruct b as [| y b]; [tauto |]. cbn [cprefix].
+    destruct (Z.eqb_spec y 0) as [-> | Hy]; [cbn; tauto |]. split; [intros H; lia | intros H; discriminate H].
+  - cbn [cstrcmp cprefix]. destruct (Z.eqb_spec x 0) as [-> | Hx].
+    + destruct b as [| y b]; [tauto |]. cbn [cprefix].
+      destruct (Z.eqb_spec y 0) as [-> | Hy]; [cbn; tauto |]. split; [intros H; lia | intros H; discriminate H].
+    + destruct b as [| y b].
+      * cbn [cprefix]. split; [intros H; contradiction | intros H; discriminate H].
+      * cbn [cprefix]. destruct (Z.eqb_spec x y) as [<- | Hxy].
+        -- destruct (Z.eqb_spec x 0) as [E | _]; [contradiction |]. rewrite IH. split; [intros ->; reflexivity | intros H; injection H; auto].
+        -- destruct (Z.eqb_spec y 0) as [_ | _]; (split; [intros H; lia | intros H; try discriminate H; injection H; intros; contradiction]).
+Qed.
+
+Lemma owner_matches_iff owner uid :
+  owner_matches owner uid = true <-> cprefix (fixlen OWNER_SZ owner) = cprefix (fixlen USERID_SZ uid).
+Proof. unfold owner_matches. rewrite Z.eqb_eq. apply cstrcmp_zero_iff. Qed.
+
+Lemma is_file_owner_iff owner uid fname firstlogin :
+  is_file_owner owner uid fname firstlogin = true <->
+  cprefix (fixlen OWNER_SZ owner) = cprefix (fixlen USERID_SZ uid) /\ 3 < cstrlen (fixlen FN_SZ fname) /\ firstlogin <= create_time fname.
+Proof. unfold is_file_owner. rewrite is_owner_iff, owner_matches_iff, Z.ltb_lt, Z.geb_le. tauto. Qed.
+
+(* ids as they are: no NUL inside, short enough to fit their field *)
+Definition id_ok (n : nat) (l : list Z) : Prop := Forall (fun c => c <> 0) l /\ (length l <= n)%nat.
+Lemma cprefix_nonul l r : Forall (fun c => c <> 0) l -> cprefix (l ++ r) = l ++ cprefix r.
+Proof.
+  induction 1 as [| c l Hc _ IH]; [reflexivity |]. cbn [app cprefix].
+  destruct (Z.eqb_spec c 0) as [E | _]; [contradiction |]. rewrite IH. reflexivity.
+Qed.
+Lemma cprefix_zeros n : cprefix (repeat 0 n) = [].
+Proof. destruct n; reflexivity. Qed.
+Lemma cprefix_fixlen n l : id_ok n l -> cprefix (fixlen n l) = l.
+Proof.
+  intros [Hz Hl]. unfold fixlen. rewrite firstn_all2 by exact Hl.
+  rewrite cprefix_nonul by exact Hz. rewrite cprefix_zeros. apply app_nil_r.
+Qed.
+
+(* the author check passes only for the very same id: not for a prefix of it, not for an extension, not for another case *)
+Lemma owner_exact owner uid fname firstlogin : id_ok OWNER_SZ owner -> id_ok USERID_SZ uid ->
+  is_file_owner owner uid fname firstlogin = true -> owner = uid.
+Proof.
+  intros Ho Hu H. apply is_file_owner_iff in H. destruct H as [H _].
+  rewrite (cprefix_fixlen _ _ Ho), (cprefix_fixlen _ _ Hu) in H. exact H.
+Qed.
+Lemma owner_not_prefix uid rest fname firstlogin : id_ok OWNER_SZ (uid ++ rest) -> id_ok USERID_SZ uid -> rest <> [] ->
+  is_file_owner (uid ++ rest) uid fname firstlogin = false.
+Proof.
+  intros Ho Hu Hr. destruct (is_file_owner (uid ++ rest) uid fname firstlogin) eqn:E; [| reflexivity].
+  apply (owner_exact _ _ _ _ Ho Hu) in E. exfalso. apply Hr.
+  apply (app_inv_head uid). rewrite app_nil_r. exact E.
+Qed.
+
+Definition id_A1 : list Z := [65; 49].
+Definition fn_some : list Z := [77; 46; 49; 54; 48; 55; 50; 48; 50; 50; 51; 57; 46; 65; 46; 51; 48; 68].   (* M.1607202239.A.30D *)
+Example owner_examples :
+  is_file_owner id_A1 id_A1 fn_some 1000 = true /\
+  is_file_owner (id_A1 ++ [48]) id_A1 fn_some 1000 = false /\            (* author A10, editor A1 *)
+  is_file_owner id_A1 (id_A1 ++ [48]) fn_some 1000 = false /\            (* author A1, editor A10 *)
+  is_file_owner (id_A1 ++ [46]) id_A1 fn_some 1000 = false /\            (* "A1." of an external post *)
+  is_file_owner [97; 49] id_A1 fn_some 1000 = false /\                   (* a1 *)
+  is_file_owner (id_A1 ++ [0; 88]) id_A1 fn_some 1000 = true /\          (* bytes after the NUL are not part of the id *)
+  is_file_owner id_A1 id_A1 fn_some 1607202240 = false /\                (* the id was registered again after the article *)
+  is_file_owner id_A1 id_A1 [77; 46; 49] 1000 = false /\
+  create_time fn_some = 1607202239.
+Proof. vm_compute. repeat split; reflexivity. Qed.
+
 (* ------------------------------------------------------------------ running the sequences *)
-Definition frame (st : state) : Z * Z * Z := (s_dir st, s_files st, s_numposts st).
+(* what a refusal must leave alone: the target's index and directory, the author's counter, and every other board *)
+Definition frame (st : state) : Z * Z * Z * Z := (s_dir st, s_files st, s_numposts st, s_other st).
 Definition accepted (r : verdict * state) : bool := match fst r with Accept => true | Refuse _ => false end.
 
 Ltac atoms w :=
@@ -79,7 +211,7 @@ Lemma new_post_no_trace now w st : accepted (run (new_post_steps now w) st) = fa
 Proof. unfold new_post_steps, accepted. cbn [run]. atoms w; cbn; intros H; try reflexivity; discriminate H. Qed.
 
 Lemma new_post_effect now w st : accepted (run (new_post_steps now w) st) = true ->
-  frame (snd (run (new_post_steps now w) st)) = (s_dir st + 1, s_files st + 1, s_numposts st + 1).
+  frame (snd (run (new_post_steps now w) st)) = (s_dir st + 1, s_files st + 1, s_numposts st + 1, s_other st + 1).
 Proof. unfold new_post_steps, accepted. cbn [run]. atoms w; cbn; intros H; try reflexivity; discriminate H. Qed.
 
 (* Recommend *)
@@ -184,7 +316,7 @@ Definition unverified_user : winp :=  (* the same without PERM_LOGINOK *)
 Definition cooling_user : winp :=     (* verified, but in an active cool-down with a saturated post counter *)
   mk_winp true false true true true false false false false false false false false false false true false false false false true false.
 Definition own_article : aux := mk_aux true true false false false false false false.
-Definition st_some : state := mk_state 2 5 100 0.
+Definition st_some : state := mk_state 2 5 100 0 0.
 
 Lemma accept_implies_rules_recommend_refuted : exists now w a st,
   fst (run (recommend_steps now w a) st) = Accept /\ may_write w = false /\ w_loginok w = false.
@@ -212,6 +344,35 @@ Proof.
   intros w a st H. apply accepted_true in H. rewrite edit_accept_iff in H. unfold edit_rules in H.
   repeat (apply andb_prop in H; destruct H as [H ?]). apply orb_prop. assumption.
 Qed.
+
+(* an accepted edit by a non-sysop: the article's owner field holds exactly the editor's id *)
+Lemma edit_owner_id : forall w a st owner uid fname firstlogin,
+  a_owner a = is_file_owner owner uid fname firstlogin -> id_ok OWNER_SZ owner -> id_ok USERID_SZ uid ->
+  fst (run (edit_post_steps w a) st) = Accept -> owner = uid \/ w_sysop w = true.
+Proof.
+  intros w a st owner uid fname fl Ha Ho Hu H. destruct (edit_owner w a st H) as [E | E]; [left | right; exact E].
+  rewrite Ha in E. exact (owner_exact _ _ _ _ Ho Hu E).
+Qed.
+
+(* a cross-post out of a board that logs forwards writes into the source article: accepted only under the source's rules *)
+Lemma accept_implies_source_rules_cross_post : forall now ws wt a st,
+  fst (run (cross_post_steps now ws wt a) st) = Accept -> a_cplog a = true ->
+  w_readable ws = true /\ posting_rules ws = true /\ limits_ok ws = true.
+Proof.
+  intros now ws wt a st H C. apply accepted_true in H. rewrite cross_accept_iff, C in H.
+  repeat (apply andb_prop in H; destruct H as [H ?]).
+  destruct (w_readable ws), (posting_rules ws), (limits_ok ws); cbn in *; try discriminate; auto.
+Qed.
+
+(* non-vacuity of the source-board refusal: target fine, banned from the BRD_CPLOG source -> refused, nothing written anywhere *)
+Definition banned_user : winp :=
+  mk_winp true false true true true false false false true false false false false false false true false false true false false false.
+Definition cplog_article : aux := mk_aux true false false false false false false true.
+Example source_refusal_no_trace :
+  run (cross_post_steps 0 banned_user verified_user cplog_article) st_some = (Refuse E_NOPOST, st_some) /\
+  fst (run (cross_post_steps 0 verified_user verified_user cplog_article) st_some) = Accept /\
+  frame (snd (run (cross_post_steps 0 verified_user verified_user cplog_article) st_some)) = (3, 6, 100, 2).
+Proof. vm_compute. auto. Qed.
 
 Lemma refusal_no_trace : forall now w ws a st,
   (fst (run (new_post_steps now w) st) <> Accept -> frame (snd (run (new_post_steps now w) st)) = frame st) /\
@@ -247,7 +408,7 @@ Qed.
 
 (* non-vacuity *)
 Example someone_may_write : may_write verified_user = true /\ fst (run (new_post_steps 0 verified_user) st_some) = Accept /\
-  frame (snd (run (new_post_steps 0 verified_user) st_some)) = (3, 6, 101).
+  frame (snd (run (new_post_steps 0 verified_user) st_some)) = (3, 6, 101, 1).
 Proof. vm_compute. auto. Qed.
 Example someone_is_refused : fst (run (new_post_steps 0 unverified_user) st_some) = Refuse E_NOTPERMITTED /\
   fst (run (cross_post_steps 0 verified_user cooling_user own_article) st_some) = Refuse E_COOLDOWN.
